@@ -1567,6 +1567,92 @@ fn part_mbody_corr(o: &mut Outcome, rng: &mut Rng, thorough: bool) {
     }
 }
 
+/// correspondence of `format_code_block` (lib.rs; a statement-shaped macro body goes through it) in two
+/// steps around the real formatter: the model wraps the code in `fn main() {` (`skip.enclose`), the real
+/// `format_snippet` formats the model's wrapped text, the model unwraps the result and shifts the ranges
+/// (`skip.unwrap`), and that must be what the real `format_code_block` returns for the code (snippet and
+/// non-formatted ranges), `None` included.
+fn part_codeblock_corr(o: &mut Outcome, rng: &mut Rng, thorough: bool) {
+    struct Case { code: String, cfg: Vec<(String, String)> }
+    let pieces: &[&str] = &[
+        "let  a=f( 1 ,2 ) ;",
+        "#[rustfmt::skip]\nlet  b  =  [ 1 ,\n\n  2 ] ;",
+        "#[rustfmt::skip]\nstruct  S {\n a:u32,   \n\n\n        b :u32 /* c */ }",
+        "#[rustfmt::skip]\n#[cfg(any(a,\n   b))]\nfn  inner( ) {\n\n   1 ;\n\n   }",
+        "let  s=\"first line\n     second line\n\n  third\" ;",
+        "let  s2=\"wrapped \\\n     continued \\\n  end\" ;",
+        "/* c \"\n  s \" */ h( ) ;",
+        "// \"quoted\n//    text\"\ng( ) ;",
+        "fn  k( ) {\n#[rustfmt::skip]\n   let  y  =  [ 1 ,\n\n 2 ] ;\n}",
+        "g( | x | {\n #[rustfmt::skip]\n  let  y  =  [ 1 ,\n 2 ] ;\n y } ) ;",
+        "x",
+        "}",
+        "",
+        "",
+    ];
+    let mut cases = vec![];
+    for _ in 0..(if thorough { 20000 } else { 2000 }) {
+        let mut code = String::new();
+        for _ in 0..rng.range(1, 5) {
+            for l in rng.pick(pieces).split('\n') {
+                if !l.is_empty() { code.push_str(&junk_indent(rng)); }
+                code.push_str(l);
+                code.push('\n');
+            }
+        }
+        if rng.chance(1, 2) { code.pop(); }
+        let mut cfg: Vec<(String, String)> = vec![];
+        if rng.chance(1, 2) { cfg.push(("format_strings".into(), "true".into())); }
+        if rng.chance(1, 2) { cfg.push(("style_edition".into(), "2024".into())); }
+        match rng.below(8) { 0 => cfg.push(("hard_tabs".into(), "true".into())), 1 => cfg.push(("tab_spaces".into(), "2".into())), 2 => cfg.push(("tab_spaces".into(), "8".into())), 3 => cfg.push(("brace_style".into(), "AlwaysNextLine".into())), 4 => cfg.push(("max_width".into(), "40".into())), _ => {} }
+        cases.push(Case { code, cfg });
+    }
+    let facts = |c: &Case| -> (bool, usize, usize, bool, bool) {
+        (cfg_get(&c.cfg, "hard_tabs") == Some("true"), cfg_get(&c.cfg, "tab_spaces").and_then(|v| v.parse().ok()).unwrap_or(4), cfg_get(&c.cfg, "max_width").and_then(|v| v.parse().ok()).unwrap_or(100), cfg_get(&c.cfg, "format_strings") == Some("true"), cfg_get(&c.cfg, "style_edition") == Some("2024"))
+    };
+    // 1. the model wraps
+    let reqs: Vec<String> = cases.iter().map(|c| { let (ht, ts, _, fs, ed) = facts(c); format!("skip.enclose {} {} {} {} {}", bit(ht), ts, bit(fs), bit(ed), enc_str(&c.code)) }).collect();
+    let wrapped: Vec<Option<String>> = run_model(&reqs, jobs()).iter().map(|a| dec_str(a)).collect();
+    // 2. the real formatter on the model's wrapped text; the real format_code_block on the code
+    let idx: Vec<usize> = (0..cases.len()).collect();
+    let runs: Vec<(Option<(String, Vec<(usize, usize)>)>, Option<(String, Vec<(usize, usize)>)>)> = par_map(&idx, |i| {
+        let c = &cases[*i];
+        let mut config = Config::default();
+        for (k, v) in &c.cfg { config.override_value(k, v); }
+        let mut unix = config.clone();
+        unix.override_value("newline_style", "Unix");
+        let w = wrapped[*i].clone();
+        let code = c.code.clone();
+        let inner = match w { Some(w) => std::panic::catch_unwind(move || hs::format_snippet_raw(&w, &unix, true)).unwrap_or(None), None => None };
+        let real = std::panic::catch_unwind(move || hs::format_code_block_raw(&code, &config, true)).unwrap_or(None);
+        (inner, real)
+    });
+    let enc_ranges = |rs: &[(usize, usize)]| if rs.is_empty() { "_".to_string() } else { rs.iter().map(|(a, b)| format!("{}-{}", a, b)).collect::<Vec<_>>().join(",") };
+    for ((c, w), (inner, real)) in cases.iter().zip(wrapped.iter()).zip(runs.iter()) {
+        let (ht, ts, mw, fs, ed) = facts(c);
+        if w.is_none() {
+            o.direct_failures.push(json!({"sig": "c04:skip.enclose-no-answer", "what": "the model gave no wrapped text", "code": c.code}));
+            continue;
+        }
+        match inner {
+            None => {
+                // the wrapped text cannot be formatted: format_code_block gives up as well
+                o.count("codeblock:wrapped-text-not-formatted");
+                o.direct_evals += 1;
+                if real.is_some() {
+                    o.flushed.disagreements.push(json!({"op": "skip.enclose", "what": "format_snippet fails on the model's wrapped text while format_code_block succeeds on the code: the model's wrapper is not the code's", "code": c.code, "wrapped": w, "config": cfg_text(&c.cfg)}));
+                }
+            }
+            Some((formatted, ranges)) => {
+                let req = format!("skip.unwrap {} {} {} {} {} {} {}", bit(ht), ts, mw, bit(fs), bit(ed), enc_ranges(ranges), enc_str(formatted));
+                let expect = match real { Some((sn, rs)) => format!("{}:{}", enc_str(sn), enc_ranges(rs)), None => "none".to_string() };
+                o.push("corr", "skip.unwrap", req, expect, format!("format_code_block [{}]", cfg_text(&c.cfg)), !ranges.is_empty());
+                o.count(&format!("codeblock:{}:ranges={}", if real.is_some() { "some" } else { "none" }, ranges.len().min(3)));
+            }
+        }
+    }
+}
+
 // ------------------------------------------------------------------------------------------------
 // rustfmt::skip::macros / skip_macro_invocations / rustfmt::skip::attributes
 
@@ -2490,6 +2576,7 @@ pub fn run(tier: &str, seed: u64, out: &Path) -> i32 {
     if want("nodes") { part_e2e_nodes(&mut o, &mut rng.fork(), thorough); } else { rng.fork(); }
     if want("mbody") { part_e2e_macro_bodies(&mut o, &mut rng.fork(), thorough); } else { rng.fork(); }
     if want("mbodycorr") { part_mbody_corr(&mut o, &mut rng.fork(), thorough); } else { rng.fork(); }
+    if want("codeblock") { part_codeblock_corr(&mut o, &mut rng.fork(), thorough); } else { rng.fork(); }
     if want("scoped") { part_e2e_scoped(&mut o, &mut rng.fork(), thorough); } else { rng.fork(); }
     if want("files") { part_files(&mut o, &mut rng.fork(), thorough, out); } else { rng.fork(); }
     if want("probes") { part_probes(&mut o, out); }
